@@ -22,6 +22,7 @@ struct State {
     bool envChecked = false;
     void (*sched)(char const *) = nullptr; // scheduling-point callback (controlled scheduler)
     int derivationDepth = 0;               // > 0 while a clause-deriving procedure (SatELite) runs
+    unsigned long epoch = 0;               // incremented by setSink: a new trace starts, nothing has been announced in it
     char const * derivationSite = "";
 };
 
@@ -47,6 +48,7 @@ inline void setSink(FILE * f) {
     s.envChecked = true;
     s.sink = f;
     s.derivationDepth = 0;
+    ++s.epoch;
 }
 
 inline bool tracing() { return sink() != nullptr; }
